@@ -203,6 +203,8 @@ class Calls(DataModels):
         if isinstance(obj, SObj):
             if name in obj.attrs:
                 return self.call(I, obj.attrs[name], args, kw, node, fr)
+            if getattr(obj, 'is_structs', False) and self.class_has(obj.cls, name) is False:
+                return self.call(I, StructRef(name, obj), args, kw, node, fr)
             return self.call_obj_method(I, obj, name, args, kw, node)
         if isinstance(obj, SRec):
             if name == 'get':
@@ -312,6 +314,12 @@ class Calls(DataModels):
                 return self.call(I, f, args, kw, node, fr)
             return self.call(I, f, args, kw, node, fr)
         raise Unsupported('method %s on %r (line %s)' % (name, type(obj).__name__, ln))
+
+    def class_has(self, clsname, name):
+        cls = self.real_class(clsname)
+        if cls is None:
+            return None
+        return any(name in vars(k) for k in cls.__mro__)
 
     def call_obj_method(self, I, obj, name, args, kw, node, after=None):
         cls = self.real_class(obj.cls)
@@ -832,6 +840,15 @@ def _b_bytes(M, I, args, kw, node):
     raise Unsupported('bytes(%r)' % (v,))
 
 
+def _b_bytearray(M, I, args, kw, node):
+    if not args:
+        return b''
+    v = args[0]
+    if isinstance(v, (SBytes, bytes)):
+        return v
+    return _b_bytes(M, I, args, kw, node)
+
+
 def _b_list(M, I, args, kw, node):
     if not args:
         return []
@@ -1075,7 +1092,7 @@ _BUILTIN_TABLE = {
     all: _b_all, sum: _b_sum, abs: _b_abs, str: _b_str, repr: _b_repr, hasattr: _b_hasattr,
     getattr: _b_getattr, sorted: _b_sorted, divmod: _b_divmod, next: _b_next, iter: _b_iter,
     type: _b_type, print: _b_print, chr: _b_chr, map: _b_map, itertools.count: _b_count,
-    math.ceil: _b_ceil, float: _b_float,
+    math.ceil: _b_ceil, float: _b_float, bytearray: _b_bytearray,
 }
 import zlib as _zlib
 _BUILTIN_TABLE[_zlib.decompressobj] = _b_decompressobj
